@@ -59,6 +59,7 @@ type dexSnap struct {
 	bals       map[string]sdk.Coins     // user balances
 	gauges     map[uint64]rewardstypes.Gauge
 	rewardsBal sdk.Coins
+	twa        map[uint64]string // C19: oracle price record per asset ("twa/active") as it stood when the snapshot was taken
 }
 
 // dexTracker observes every block of a dex run (also inside multi-block events) and evaluates the block-level parts of
@@ -157,6 +158,14 @@ func (t *dexTracker) snapshot(w *World) {
 	if t.prop == "C19" || t.prop == "C07" {
 		for _, g := range w.App.Rewardskeeper.GetAllGauges(ctx) {
 			s.gauges[g.Id] = g
+		}
+	}
+	if t.prop == "C19" {
+		s.twa = map[uint64]string{}
+		for _, a := range w.Dex.Assets {
+			if tw, ok := w.App.MarketKeeper.GetTwa(ctx, a.ID); ok {
+				s.twa[a.ID] = fmt.Sprintf("%d/%v", tw.Twa, tw.IsPriceActive)
+			}
 		}
 	}
 	t.snap = s
